@@ -92,6 +92,13 @@ func init() {
 			return "", fmt.Errorf("Sync loop exit: %w", err)
 		}
 		fmt.Fprintf(&sb, "\n/-- db.go: Sync — the condition under which the chunk loop stops -/\ndef syncLoopExit (synced limited syncedToWALEnd exceedsTruncate : Bool) : Bool :=\n  %s\n", g2)
+		// checkpointIfNeeded: every checkpoint it can issue, with mode and guard, and its returns
+		fd, err = p.funcDecl("DB", "checkpointIfNeeded")
+		if err != nil {
+			return "", err
+		}
+		gc := guardedCalls(&tctx{p: p}, fd, map[string]bool{"checkpointWithExecutor": true}, true)
+		sb.WriteString("\n/-- db.go: checkpointIfNeeded — (checkpoint call or return, enclosing guard) in source order -/\ndef ifNeededSteps : List (String × String) := " + leanStrPairs(gc) + "\n")
 		sb.WriteString("\nend Litestream.Gen.Ck\n")
 		return sb.String(), nil
 	}
